@@ -56,7 +56,8 @@ CATALOGUES = {
         "# gfa2 comment", "H|TS:i:10", "S|f|3|*|aa:A:c|bb:i:1",
         "G|g3|a+|c-|7|*", "G|*|a+|b-|3|1", "F|a|y+|0|1|0|1|*", "U|u5|a e1", "O|o8|a+ e3+ c+",
         "E|c|a+|c+|0|1|0|1|*", "G|b|a+|b-|4|*", "U|u6|a u6", "O|o9|a+ o9+",
-    ], ids=["a", "b", "c", "e1", "e4", "g1", "o1", "o2", "u1", "u3", "zz", "2"], unused=True,
+        "O|o10|a+ g1+ b-", "O|o11|b+ g2+ c+ g3- a-", "X|custom|1",
+    ], ids=["a", "b", "c", "e1", "e4", "g1", "g2", "g3", "o1", "o2", "u1", "u3", "zz", "2"], unused=True,
         renames=[("a", "d"), ("a", "b"), ("e1", "e9"), ("g1", "g9"), ("o1", "u1"), ("u1", "u2"), ("b", "e1"),
                  ("a", "8"), ("e1", "9"), ("2", "11"), ("a", "*"), ("e1", "*"), ("e4", "*"), ("g1", "*"), ("o1", "*"),
                  ("u1", "*"), ("u2", "*"), ("b", "a b"), ("e2", "e 2")],
@@ -96,7 +97,7 @@ CATALOGUES["perm2"] = dict(version="gfa2", lines=[
     "G|g1|a+|b-|10|*", "F|a|x+|0|2|0|2|*",
     "O|o1|a+ b+", "O|o2|a+ e1+ b+", "O|o3|o2- c+", "O|o1|c+|xx:i:1",
     "U|u1|a e1 g1", "U|u2|u1 o1", "U|u1|c|yy:i:2", "U|u5|a g1", "O|o5|a+ g1+ b-", "O|o6|e1- a-",
-    "X|custom|1", "H|VN:Z:2.0", "H|TS:i:10",
+    "X|custom|1", "H|VN:Z:2.0", "H|TS:i:10", "X|custom|1", "# gfa2 comment", "# gfa2 comment",
 ], ids=["a", "b", "c", "e1", "g1", "o1", "o2", "u1"], renames=[])
 
 
